@@ -28,7 +28,7 @@ Check(e) ==
   /\ Eq(e, "EncIntOp", L!EncIntOp(e.v), AsSeq(EncIntOp(e.v)))
   /\ Eq(e, "Dev_IntEncoding", L!Dev_IntEncoding(e.v), Dev_IntEncoding(e.v))
   /\ \A f \in Dev_IntEncoding(e.v) : Eq(e, "EncIntForm", L!EncIntForm(e.v, f), AsSeq(EncIntForm(e.v, f)))
-  /\ IF lt.t \in {"i", "bad"} /\ b[1] # 30 THEN Eq(e, "Tok", lt, pt)
+  /\ IF lt.t \in {"i", "bad"} /\ b[1] > 24 /\ b[1] # 30 THEN Eq(e, "Tok", lt, pt)      \* an integer token or a refused one
      ELSE Eq(e, "Tok.other", "other", pt.t)
   /\ LET enc == L!EncIntOp(e.v) IN
      Eq(e, "Tok.EncIntOp", L!Tok(enc \o e.pad, 0),
